@@ -13,6 +13,15 @@ Theorems: lean/Goat/Props/C03.lean
       below the stack's root); `climbing_rejected`, `root_removal_refused`, `readonly_never_mutates`,
       `encrypted_delegates_names`, `view_of_stack` (views of views).
 
+Structural tie (every run, DESIGN 1.4): `harness/cmd/fsfacts facts C03` (go/ast) rewrites
+lean/Goat/Tie/ExtractedFSC03.lean from the sources under test — for EVERY method of the memory wrapper, the sub-path
+view, the disk filespace, the read-only mask and the encrypted view what it does with each path parameter (reduced
+first and the error returned / handed on unchanged / never touched) and what it then calls, the constructors
+NewFilespaceWrapper / NewSubFS / NewReadonlyFS, Cache.Filespace, ReduceAbsPath — and the theorems `tie_*` of
+lean/Goat/Tie/FSC03.lean compare them by `decide` with the path plumbing Model/Views.lean assumes.  They are
+obligations of the check: a failing one is followed by the search below (differential, sweep, oracle) and ends as
+`no-failing-input-found` when nothing concrete turns up.
+
 Every run (harness/cmd/views, model driver m_views):
   1. differential: random histories through random view stacks (1..4 layers over mem / spy / disk / cache), real code
      against the model, line by line.  Over mem every answer, every dump and every `chk` is compared; over the spy
@@ -30,6 +39,7 @@ import json
 import os
 import subprocess
 
+import fs_tie
 import lib
 
 META = dict(
@@ -49,11 +59,18 @@ META = dict(
              "view's own root are refused for every kind; the read-only mask never reaches the bottom with a mutation; "
              "the encrypted view delegates names unchanged; a view of a view is rooted at or below its parent. The "
              "model is tied to /repo on every run by a differential over random view stacks (mem, spy, disk, cache "
-             "bottoms) and the property itself is evaluated on the implementation by an exhaustive sweep and a random "
-             "oracle with sentinels outside every root.",
+             "bottoms) and by a structural tie: go/ast normal forms of every method of the five view kinds (every path "
+             "argument reduced first incl. both arguments of the copies, rebasing on basePath+reduced, Remove/RemoveAll "
+             "of the own root refused, the read-only mask's mutators never touch the inner filespace, its child and the "
+             "cache's child are sub-path views, the encrypted view passes names unchanged) and of ReduceAbsPath, "
+             "regenerated from the sources and compared with the model's assumptions by `decide` "
+             "(lean/Goat/Tie/FSC03.lean, theorems tie_*); the property itself is evaluated on the implementation by an "
+             "exhaustive sweep and a random oracle with sentinels outside every root.",
         design_ref="DESIGN.md 3 C03"),
     level_note="Trusted: Lean kernel (axioms propext/Classical.choice/Quot.sound only); the hand-written view-stack "
-               "model's correspondence to /repo (differential; generator reach in the histogram). The semantic theorems "
+               "model's correspondence to /repo (differential; generator reach in the histogram; structural tie "
+               "lean/Goat/Tie/FSC03.lean — SYNTACTIC: go/ast normal forms of the view methods compared by `decide`, "
+               "trusted as a reading of the text of those methods, blind to what they call). The semantic theorems "
                "(c) are proved over any bottom filespace that refines the specification: for the memory filespace that "
                "is a theorem (C01), for the host file system below a disk root and for the write-back cache it is an "
                "ASSUMPTION (the cache is known not to be a plain filespace, C06/C07) — for those two the proof gives "
@@ -64,10 +81,12 @@ META = dict(
                "in the differential, real ciphers in sweep/oracle). Symbolic links on disk are outside the property's "
                "lexical notion of a climbing path and are not generated. `Filespace()` of the read-only mask and of the "
                "cache never fails (a climbing argument yields a dead view); the theorems state that as: a dead view "
-               "fails every call. KF-C03-1 (liveness, not confinement): Copy*(x, x) through a cache whose buffer holds x "
-               "deadlocks; excluded from generation, replayed every run.",
+               "fails every call. Former KF-C03-1 (liveness, not confinement: Copy*(x, x) through a cache whose buffer holds x "
+               "deadlocked) is repaired in fscache (the cache refuses overlapping copy arguments); its witness is "
+               "corpus/C03/cache-self-copy.ops and such calls are generated and swept like any other.",
     technique="Lean 4 proof (lexical lemmas on all byte strings, point-wise frame/locality theorems on the spec, "
-              "induction over view stacks) + differential correspondence (random stacks, spy bottom) + exhaustive "
+              "induction over view stacks) + structural tie (go/ast normal forms of every view method vs hand-written "
+              "expectations, `decide`) + differential correspondence (random stacks, spy bottom) + exhaustive "
               "small-scope confinement sweep + random oracle with sentinels",
 )
 
@@ -250,7 +269,14 @@ def _kv(line):
 
 
 def run(ctx):
-    failed = ctx.lean_obligations()
+    try:
+        _run(ctx)
+    finally:
+        fs_tie.restore(ctx)   # a run against a scratch worktree leaves the extracted facts of /repo behind
+
+
+def _run(ctx):
+    failed = fs_tie.obligations(ctx)   # Props/C03 + the structural tie Goat.Tie.FSC03 (regenerated from ctx.repo)
     go = ctx.build_go("views")
     model = ctx.build_model("m_views")
     n_gen = ctx.pick(2400, 32000)
@@ -485,7 +511,7 @@ def run(ctx):
     if failed:
         ctx.obligation_violations(failed, searcher=lambda: concrete_found)
     if not ctx.quick():
-        ctx.leanchecker(["Goat.Props.C03"])
+        ctx.leanchecker(["Goat.Props.C03", fs_tie.tie_module(ctx)])
         if any(not o["ok"] for o in ctx.obligations) and not failed:
             ctx.obligation_violations([o for o in ctx.obligations if not o["ok"]])
 
